@@ -814,20 +814,26 @@ def _bounds(v, facts, depth=0, _simple_only=False, _fl=None):
     if depth <= 1 and 0 < len(fl) <= 48 and (lo is None or hi is None):
         vat = set(v.t)
         for g in fl:
-            if not (vat & set(g.t)):
+            shared = vat & set(g.t)
+            if not shared:
                 continue
+            # multiples k > 0 of the fact that cancel one of the atoms of v:  v = (v - k g) + k g >= bound(v - k g)
+            ks_lo = {v.t[a] / g.t[a] for a in shared if v.t[a] / g.t[a] > 0} | {Fraction(1)}
+            ks_hi = {-v.t[a] / g.t[a] for a in shared if -v.t[a] / g.t[a] > 0} | {Fraction(1)}
             if lo is None or lo < 0:
-                d = v - g
-                if vat - set(d.t):
-                    rlo, _ = bounds(d, facts, depth + 1, _fl=fl)
-                    if rlo is not None:
-                        lo = rlo if lo is None else max(lo, rlo)
+                for k_ in sorted(ks_lo)[:3]:
+                    d = v - g.scale(k_)
+                    if vat - set(d.t):
+                        rlo, _ = bounds(d, facts, depth + 1, _fl=fl)
+                        if rlo is not None:
+                            lo = rlo if lo is None else max(lo, rlo)
             if hi is None or hi > 0:
-                d = v + g
-                if vat - set(d.t):
-                    _, rhi = bounds(d, facts, depth + 1, _fl=fl)
-                    if rhi is not None:
-                        hi = rhi if hi is None else min(hi, rhi)
+                for k_ in sorted(ks_hi)[:3]:
+                    d = v + g.scale(k_)
+                    if vat - set(d.t):
+                        _, rhi = bounds(d, facts, depth + 1, _fl=fl)
+                        if rhi is not None:
+                            hi = rhi if hi is None else min(hi, rhi)
     # term by term
     tlo, thi = v.c, v.c
     for at, coef in v.t.items():
@@ -1049,6 +1055,24 @@ def _occurrences(v, atom):
         for x in v:
             if isinstance(x, (tuple, Lin)):
                 yield from _occurrences(x, atom)
+
+
+def _rename_loop(v, lid, key):
+    """the value with every symbol of loop `lid` (name@L<lid>, <k>@L<lid>, <i>@L<lid>) renamed to name@L<lid>~key: the same expression at another pass"""
+    tag = f"@L{lid}"
+    if isinstance(v, Lin):
+        out = Lin(c=v.c)
+        for at, coef in v.t.items():
+            at2 = _rename_loop(at, lid, key)
+            out = out + (at2.scale(coef) if isinstance(at2, Lin) else Lin({at2: coef}))
+        return out
+    if isinstance(v, S):
+        return S(tuple(tuple(_rename_loop(x, lid, key) if isinstance(x, (Lin, S, tuple)) else x for x in part) for part in v.p))
+    if isinstance(v, tuple):
+        if v[:1] == ("sym",) and len(v) == 2 and isinstance(v[1], str) and v[1].endswith(tag):
+            return ("sym", v[1] + "~" + key)
+        return tuple(_rename_loop(x, lid, key) if isinstance(x, (Lin, S, tuple)) else x for x in v)
+    return v
 
 
 def subst(v, atom, repl):
@@ -1420,6 +1444,11 @@ class Engine:
                         self.assign(it.optional_vars, v, s2, node)
                 outs.extend(self.block(node.body, [s2]))
             return outs
+        if isinstance(node, ast.Match):
+            chain = self._match_as_if(node)
+            if chain is None:
+                raise Unsupported("match statement with patterns other than literal values")
+            return self.block(chain, [st])
         if isinstance(node, ast.Try):
             outs = self.block(node.body, [st])
             live = [s for s in outs if s.status == "run"]
@@ -1693,6 +1722,39 @@ class Engine:
             self.emit(c, "leave", call, func=fnode.name, value=val)
             res.append((c, val))
         return res
+
+    def _match_as_if(self, node):
+        """`match x: case 1: A; case 2 | 3: B; case _: C` (literal values, `_`, guards) as the if / elif chain it is"""
+        def test_of(pat):
+            if isinstance(pat, ast.MatchValue):
+                return ast.Compare(left=node.subject, ops=[ast.Eq()], comparators=[pat.value])
+            if isinstance(pat, ast.MatchSingleton):
+                return ast.Compare(left=node.subject, ops=[ast.Is()], comparators=[ast.Constant(value=pat.value)])
+            if isinstance(pat, ast.MatchOr):
+                ts = [test_of(p_) for p_ in pat.patterns]
+                return None if any(t is None for t in ts) else ast.BoolOp(op=ast.Or(), values=ts)
+            if isinstance(pat, ast.MatchAs) and pat.pattern is None and pat.name is None:
+                return ast.Constant(value=True)
+            return None
+        if not isinstance(node.subject, (ast.Name, ast.Attribute, ast.Constant, ast.Subscript, ast.Compare, ast.BoolOp, ast.UnaryOp, ast.Tuple)):
+            return None
+        if isinstance(node.subject, ast.Tuple):
+            return None
+        orelse = []
+        for case in reversed(node.cases):
+            t = test_of(case.pattern)
+            if t is None:
+                return None
+            if case.guard is not None:
+                t = ast.BoolOp(op=ast.And(), values=[t, case.guard])
+            cur = ast.If(test=t, body=case.body, orelse=orelse)
+            for n in ast.walk(t):
+                if not hasattr(n, "lineno"):
+                    ast.copy_location(n, case.pattern)
+            ast.copy_location(cur, case.pattern)
+            cur._vparent, cur._vmod = getattr(node, "_vparent", None), getattr(node, "_vmod", None)
+            orelse = [cur]
+        return orelse
 
     def _as_loop(self, node, st):
         """`xs.extend(f(a) for a in gen(...))`, `f.writelines(gen(...))` with `gen` a generator function of the module: the loop they stand for -
@@ -2275,6 +2337,7 @@ class Engine:
                     outs.append(e_state)
             post.events = merged
             self._havoc(post, names | tnames, incs, f"L{lid}'")
+            self._built_lists(post, ends, names, pre, lid, it)
             # a string built up by `s += piece` in every pass is the string before the loop followed by the pieces
             normal = [e_state for e_state in ends if e_state.status in ("run", "continue")]
             if len(normal) == 1 and len(ends) == 1:
@@ -2353,7 +2416,7 @@ class Engine:
             return ("elem", it[2][0], ("elem", ("op", ".keys", it[2]), lin(k)))
         if isinstance(it, tuple) and it and it[0] == "op" and it[1] == ".keys" and len(it[2]) == 1:
             return ("elem", it, lin(k))
-        if isinstance(it, tuple) and it[:1] in (("slice",), ("comp",)):
+        if isinstance(it, tuple) and it[:1] in (("slice",), ("comp",), ("built",)):
             return self._elem(it, lin(k))          # the k-th element of x[a::s] is x[a + s * k]; of a comprehension: its element expression
         return ("elem", it, lin(k))
 
@@ -2430,6 +2493,7 @@ class Engine:
             if r is True and truth(t, {}) is True:
                 continue                           # `while True:` is left only through break / return
             self._havoc(post, names, incs, f"L{lid}'")
+            self._built_lists(post, ends, names, pre, lid)
             for nm in names:
                 if nm in incs and isinstance(pre.get(nm), Lin):
                     op = "GtE" if incs[nm] > 0 else "LtE"
@@ -2455,6 +2519,26 @@ class Engine:
             else:
                 outs.append(post)
         return outs
+
+    def _built_lists(self, post, ends, names, pre, lid, it=None):
+        """`xs = []; <loop>: ...; xs.append(item)` - exactly one append in every pass, no other way out of the pass: after the loop xs is the list of
+        the items, item k being the appended expression at pass k (its loop symbols stand for that pass)"""
+        normal = [e for e in ends if e.status in ("run", "continue")]
+        if not normal or any(e.status == "break" for e in ends):
+            return
+        for nm in names:
+            if pre.get(nm) != ("tuple", ()):
+                continue
+            sym = ("sym", f"{nm}@L{lid}")
+            items = set()
+            for e_state in normal:
+                apps = [e for e in e_state.events if e.kind == "call" and lid in e.loops and e.d.get("recv") == sym and e.d["attr"] in ("append", "extend", "insert", "pop", "clear", "remove")]
+                if len(apps) != 1 or apps[0].d["attr"] != "append" or len(apps[0].d["args"]) != 1 or apps[0].loops[-1] != lid:
+                    items = None
+                    break
+                items.add(apps[0].d["args"][0])
+            if items and len(items) == 1:
+                post.env[nm] = ("built", next(iter(items)), lid, it if isinstance(it, tuple) and it[:1] == ("range",) else None)
 
     def _counted(self, wev, t, ends, names, pre, lid):
         """`c = lo; while c < hi: ...; c += k` (every pass, no other way out) is `for c in range(lo, hi, k)`: recorded on the `while` event as
@@ -2542,6 +2626,13 @@ class Engine:
                     return ("slice", src[1], src[2] + col[1], src[3], Lin(c=P))        # x[a:b].reshape(-1, P)[:, k] is x[a + k : b : P]
         if isinstance(idx, tuple) and idx and idx[0] == "sl":
             return ("slice", base, idx[1], idx[2], idx[3])
+        if isinstance(base, tuple) and base[:1] == ("built",) and (isinstance(idx, Lin) or (isinstance(idx, tuple) and idx[:1] == ("sym",))):
+            x = base[1]
+            x = subst(x, ("sym", f"<k>@L{base[2]}"), lin(idx))                       # the pass number is the position in the list
+            if len(base) > 3 and base[3] is not None:
+                _, lo_, _, step_ = base[3]
+                x = subst(x, ("sym", f"<i>@L{base[2]}"), lin(lo_) + lin(idx) * lin(step_))         # ... and fixes the variable of a range loop
+            return _rename_loop(x, base[2], show(lin(idx)))
         if isinstance(base, tuple) and base[:1] == ("comp",) and len(base) == 5 and (isinstance(idx, Lin) or (isinstance(idx, tuple) and idx[:1] == ("sym",))) \
                 and not (isinstance(base[2], tuple) and base[2][:1] == ("range",)):
             # the k-th item of (f(x) for x in xs) is f(xs[k]): the element expression with the pass number replaced
@@ -2815,6 +2906,10 @@ class Engine:
                 return ("ite", idx, base[1][1], base[1][0])
             if isinstance(base, tuple) and base[:1] == ("dict",):
                 return self._lookup(base, idx, st)
+            if isinstance(idx, Lin) and not idx.is_const() and not isinstance(base, S):
+                _, hi_ = bounds(idx, st.facts)
+                if hi_ is not None and hi_ < 0:
+                    idx = idx + self.length(base, st)          # x[j] with j < 0 is x[len(x) + j]
             if isinstance(idx, tuple) and idx[:1] == ("sl",) and isinstance(base, tuple) and base[:1] == ("slice",):
                 r = self._slice_of_slice(base, idx)
                 if r is not None:
@@ -2890,7 +2985,20 @@ class Engine:
             return ("bool", "and", tuple(tests))
         if isinstance(node, ast.BoolOp):
             vals = tuple(self.ev(v, st) for v in node.values)
-            return ("bool", "and" if isinstance(node.op, ast.And) else "or", vals)
+            kind = "and" if isinstance(node.op, ast.And) else "or"
+            # operands that are constants drop out (x and True is x) or decide the whole (x and False)
+            keep = []
+            for x in vals:
+                r = truth(x, {}) if not isinstance(x, (Lin, S)) or (isinstance(x, Lin) and x.is_const()) else None
+                if r is None:
+                    keep.append(x)
+                elif r == (kind == "or"):
+                    return ("k", kind == "or") if all(isinstance(y, tuple) for y in vals) else ("bool", kind, vals)
+            if len(keep) == 1 and len(keep) < len(vals) and isinstance(keep[0], tuple) and keep[0][:1] in (("cmp",), ("not",), ("bool",), ("in",), ("k",)):
+                return keep[0]
+            if len(keep) < len(vals) and len(keep) >= 2:
+                vals = tuple(keep)
+            return ("bool", kind, vals)
         if isinstance(node, ast.IfExp):
             t = self.ev(node.test, st)
             r = self.decide(t, st)
@@ -3069,6 +3177,13 @@ class Engine:
             return lin(("len", origin(args[0]))) if ival(args[1]) == 0 else lin(("dim", origin(args[0]), ival(args[1])))
         if name in ("np.size", "numpy.size") and nargs == 1:
             return lin(("len", origin(args[0])))
+        if name in ("types.SimpleNamespace", "SimpleNamespace") and not args:
+            return ("obj", "SimpleNamespace", tuple(kws.items()))
+        if name == "slice" and 1 <= nargs <= 3 and not kws:
+            lo = Lin() if nargs == 1 or args[0] == ("k", None) else args[0]
+            hi = args[0] if nargs == 1 else args[1]
+            step = Lin(c=1) if nargs < 3 or args[2] == ("k", None) else args[2]
+            return ("sl", lo, hi if hi != ("k", None) else ("k", None), step)          # slice(a, b, c) used as an index is [a:b:c]
         if name in ("zip", "enumerate"):
             return ("op", name, tuple(args)) if not kws else ("op", name, tuple(args), tuple(sorted(kws.items())))
         if name in IDENT_CALLS and name.split(".")[-1].startswith("atleast_") and nargs > 1 and not kws:
